@@ -1063,13 +1063,8 @@ Proof.
     cbn [dblocks app]. apply app_nil_r.
   - cbn [be_events]. destruct e as [ino|ino n| |b|b]; cbn [evs_ok] in Hev; cbn [be_event bind dblocks].
     + (* EvBegin *)
-      set (s1 := st_ino s _).
-      assert (G1 : s_cur s1 = s_cur s) by (destruct s; reflexivity).
-      assert (G2 : Apool s1 = Apool s) by (destruct s; reflexivity).
-      destruct (IH s1 q c') as (s' & ds & D1 & D2 & D3 & D4).
-      { rewrite G1. apply Inv_st_ino; exact Hinv. }
-      { rewrite G1; exact Hev. }
-      exists s', ds. rewrite <- G2. auto.
+      destruct (IH s q c' Hinv Hev) as (s' & ds & D1 & D2 & D3 & D4).
+      exists s', ds. auto.
     + (* EvSize *)
       set (s1 := st_ino s _).
       assert (G1 : s_cur s1 = s_cur s) by (destruct s; reflexivity).
